@@ -1,12 +1,12 @@
 package main
 
 import (
-	"os/exec"
 	"crypto/sha256"
 	"encoding/json"
 	"flag"
 	"fmt"
 	"os"
+	"os/exec"
 	"path/filepath"
 	"regexp"
 	"sort"
@@ -136,6 +136,7 @@ func (a *aggObl) status() string {
 }
 
 func cmdCheck(args []string) int {
+	retried := 0
 	fs := flag.NewFlagSet("check", flag.ExitOnError)
 	repo := fs.String("repo", "/repo", "repository")
 	vdir := fs.String("verif", "/verif", "verification directory")
@@ -345,6 +346,24 @@ func cmdCheck(args []string) int {
 		}
 	}
 	Discharge(claimed, dir, timeout, 16, true)
+	// An obligation that comes back undecided WITHOUT a candidate model is, on a loaded machine,
+	// usually a solver time-out: it is tried once more with three times the budget and fewer
+	// queries in flight before anything is reported about it.
+	{
+		var again []*Obligation
+		for _, o := range claimed {
+			if o.Status == "unknown" && o.Model == "" && o.Kind != "vacuity" && !strings.HasPrefix(o.Output, "VC too large") {
+				again = append(again, o)
+			}
+		}
+		if len(again) > 0 && len(again) <= 24 {
+			for _, o := range again {
+				o.Status = ""
+			}
+			Discharge(again, dir, 3*timeout, 6, false)
+			retried = len(again)
+		}
+	}
 	Discharge(extra, dir, 4, 16, false)
 	if tier == "thorough" {
 		secondSolver(claimed, dir, timeout)
@@ -551,20 +570,21 @@ func cmdCheck(args []string) int {
 			"seed":        seed,
 			"level":       "proof",
 			"coverage": map[string]interface{}{
-				"obligations":              len(reports),
-				"discharged":               discharged,
-				"queries":                  len(claimed),
-				"checker_cmd":              fmt.Sprintf("./check %s %s  (govc check %s %s; per obligation: z3-new -T:%d, then race z3 4.8.12 / z3 5.1.0 / cvc5 1.0.3 --enum-inst)", prop, tier, prop, tier, timeout),
-				"trusted_base":             tb,
-				"functions_under_contract": funcsUnder,
-				"obligation_list":          reports,
-				"samples":                  samples,
-				"translation_drops":        translationDrops,
-				"load_s":                   tLoad,
-				"contract_file":            "/repo/contracts_verif.go",
-				"undecided":                undecided,
-				"bounded":                  boundedRes,
-				"explanation":              spec.Note,
+				"obligations":                   len(reports),
+				"discharged":                    discharged,
+				"queries":                       len(claimed),
+				"queries_retried_after_timeout": retried,
+				"checker_cmd":                   fmt.Sprintf("./check %s %s  (govc check %s %s; per obligation: z3-new -T:%d, then race z3 4.8.12 / z3 5.1.0 / cvc5 1.0.3 --enum-inst)", prop, tier, prop, tier, timeout),
+				"trusted_base":                  tb,
+				"functions_under_contract":      funcsUnder,
+				"obligation_list":               reports,
+				"samples":                       samples,
+				"translation_drops":             translationDrops,
+				"load_s":                        tLoad,
+				"contract_file":                 "/repo/contracts_verif.go",
+				"undecided":                     undecided,
+				"bounded":                       boundedRes,
+				"explanation":                   spec.Note,
 			},
 			"assumptions": append(append([]string{}, spec.Assumptions...), sortedKeys(assumed)...),
 			"wall_s":      wall,
